@@ -477,7 +477,8 @@ class Key(metaclass=InlineDocstring):
         else:
             raise ValueError(f'Invalid or unsupported curve type: `{self.curve!r}`.')
 
-        if generic:
+        if generic and self.curve != b'BL':
+            # the generic `sig` prefix only exists for 64-byte signatures; BLS signatures are always `BLsig`
             prefix = b'sig'
         else:
             prefix = self.curve + b'sig'
